@@ -179,7 +179,13 @@ def run_stage(pid, st, tier, seed, extra_args=()):
     if st.only:
         args += ['--only', st.only]
     t0 = time.time()
-    p = subprocess.run(args, env=env, stdout=subprocess.PIPE, stderr=subprocess.PIPE, text=True, errors='replace')
+    # wall-clock guard against a hung harness (never a correctness signal: a stage that hits it yields "no verdict")
+    limit = float(os.environ.get('VERIF_STAGE_TIMEOUT', '2400' if tier == 'quick' else '21600'))
+    try:
+        p = subprocess.run(args, env=env, stdout=subprocess.PIPE, stderr=subprocess.PIPE, text=True, errors='replace', timeout=limit)
+    except subprocess.TimeoutExpired as e:
+        log('[%s] stage %s exceeded the %.0f s wall-clock guard and was killed (inconclusive)' % (pid, st.name, limit))
+        return None, {'returncode': -9, 'stderr_tail': 'stage killed after %.0f s (hung harness or overloaded machine)' % limit, 'trace': trace}, time.time() - t0
     wall = time.time() - t0
     sys.stderr.write(''.join(l + '\n' for l in p.stderr.splitlines() if l.startswith('[')))
     res = None
